@@ -23,7 +23,28 @@
 (*  (2) the DECLARATIVE predicate MayAffect(m): the message may            *)
 (*      legitimately change the RoundState (over-approximation).           *)
 (*                                                                         *)
-(* Properties: AlwaysRunning (invariant) and InvalidIsStutter (action      *)
+(* The harm of an input may show only at a LATER step of the node itself:  *)
+(* what a message leaves behind even when it is rejected (the RESIDUE: a   *)
+(* vote-set entry HeightVoteSet.AddVote creates for a round the node does  *)
+(* not track yet - before the vote is verified -, the peer's catch-up      *)
+(* quota, a majority claim, an accepted proposal / part) is part of the    *)
+(* model state, and after the peer's input the node takes its OWN steps:   *)
+(* Start (NewHeight timeout: enterNewRound(h, 0)), Advance (timeouts / nil *)
+(* precommits: enterNewRound(h, r+1)), Skip (+2/3 votes of round r+2:      *)
+(* enterNewRound(h, r+2)) - up to MaxOwn round changes -, Commit (the      *)
+(* height is decided, a fresh HeightVoteSet) and Start of the next height. *)
+(* enterNewRound calls HeightVoteSet.SetRound(round+1), which is partial   *)
+(* (two sanity panics) and runs over the entries the peer created.         *)
+(*                                                                         *)
+(* Every message that reaches peerMsgQueue is written to the write-ahead   *)
+(* log BEFORE handleMsg (receiveRoutine: cs.wal.Write(mi)); baseWAL.Write  *)
+(* turns an encoder error into a panic.  The WAL record wraps the message  *)
+(* (time stamp, type prefixes, peer id: WalWrap bytes), so message SIZE is *)
+(* a lattice dimension: the largest message the reactor accepts (Lim),     *)
+(* one byte less, one byte more.                                           *)
+(*                                                                         *)
+(* Properties: AlwaysRunning (invariant, over peer input AND own steps)    *)
+(* and InvalidIsStutter (action                                            *)
 (* property: not MayAffect => the RoundState projection is unchanged).     *)
 (* With the Fix* constants FALSE the model is the code as it is and TLC    *)
 (* finds the halting inputs; with TRUE it is the repaired code.  Every     *)
@@ -45,7 +66,9 @@ CONSTANTS Classes,            \* names of the state classes to explore
           FixTotalNeg,        \* defaultSetProposal rejects BlockPartsHeader.Total < 0
           FixTotalMax,        \* ... and a Total above what the largest allowed block can have
           FixRecoverAuth,     \* the recover path of defaultSetProposal requires a validator's signature
-          FixBlockComponents  \* a decoded block with a missing header / data / last commit, or evidence with missing members, is rejected
+          FixBlockComponents, \* a decoded block with a missing header / data / last commit, or evidence with missing members, is rejected
+          SetRoundSkipsExisting, \* HeightVoteSet.SetRound skips a round that already has an entry (TRUE: the code; FALSE: what if it called addRound)
+          WalEncoderLimit     \* WALEncoder.Encode refuses a record above maxMsgSizeBytes (FALSE: the code - only the decoder has the bound)
 
 NEG  == -9
 MAXI == 99
@@ -54,6 +77,16 @@ MAXH == 99
 NV   == 4              \* validators
 NP   == 3              \* parts of the expected part set (the harness maps 0,1,2,3 to 0,1,Total-1,Total)
 Vals == 0 .. NV - 1
+MaxOwn == 2            \* round changes (Advance / Skip) the node makes on its own after the peer's input
+
+\* message sizes (bytes on the wire).  Lim = maxMsgSize of the reactor (decodeMsg refuses len > maxMsgSize; it is also the
+\* RecvMessageCapacity of the four channels) = maxMsgSizeBytes of the WAL decoder (1 MiB in the code; the harness uses the
+\* real numbers).  WalWrap = what TimedWALMessage{Time, msgInfo{Msg, PeerID}} adds to the bare message (78-79 bytes).
+Lim     == 10000
+Small   == 300
+WalWrap == 79
+Sizes   == {"small", "lim-1", "lim", "lim+1"}
+Bytes(sz) == CASE sz = "small" -> Small [] sz = "lim-1" -> Lim - 1 [] sz = "lim" -> Lim [] sz = "lim+1" -> Lim + 1
 
 \* RoundStepType of the code
 StNewHeight == 1  StNewRound == 2  StPropose == 3  StPrevote == 4  StPrevoteWait == 5
@@ -94,27 +127,39 @@ ClassTab ==
       [] c = "h1-stalled"       -> Cls(1, 0, StPropose, FALSE, {}, FALSE, FALSE, {}, FALSE, TRUE, {}) ]
 
 (* ---- variables ------------------------------------------------------------ *)
-VARIABLES cls,      \* name of the state class the node is in
-          rs,       \* what a message can change: see RS0
+VARIABLES cls,      \* name of the state class the node was in when the peer's input arrived
+          rs,       \* what a message can change or leave behind: see RS0
+          own,      \* where the node's own steps have taken it since: see OwnOf
           running,  \* receiveRoutine is alive
           last      \* label of the last step (output only)
-vars == <<cls, rs, running, last>>
+vars == <<cls, rs, own, running, last>>
 
 \* q: catch-up rounds the peer has made HeightVoteSet allocate (peerCatchupRounds, at most 2)
 \* claim: the peer's VoteSetMaj23 claim, <<round, type, value>> or <<>> (VoteSet.peerMaj23s; the model keeps one)
 \* changed: the message was accepted (proposal set / part added / vote added / recover entered): the
 \*          behaviour ends there, what follows is the business of the consensus algorithm (C01)
-RS0 == [q |-> 0, claim |-> <<>>, changed |-> "no"]
+\* cat: the rounds above the tracked ones for which the peer has made HeightVoteSet create an entry (roundVoteSets), as far
+\*      as the node's own steps can run into them (Near); entries further away are only counted in q
+RS0 == [q |-> 0, claim |-> <<>>, changed |-> "no", cat |-> {}]
 
 C == ClassTab[cls]
 
-\* rounds for which the node's HeightVoteSet has vote sets: only round 0 before enterNewRound
+\* own: height, round, step of the node; hvr = HeightVoteSet.round, the highest round SetRound has tracked (0 before
+\* enterNewRound of the height, round + 1 afterwards); n = round changes made; committed = the class's height is decided
+OwnOf(c) == LET K == ClassTab[c]
+            IN  [h |-> K.h, r |-> K.r, step |-> K.step, hvr |-> IF K.step = StNewHeight THEN 0 ELSE K.r + 1, n |-> 0, committed |-> FALSE]
+
+\* rounds for which the node's HeightVoteSet tracks vote sets: only round 0 before enterNewRound
 \* (step NewHeight), rounds 0..r+1 afterwards (SetRound(round+1))
-Tracked(rr) == IF C.step = StNewHeight THEN rr = 0 ELSE rr \in 0 .. C.r + 1
+Tracked(rr) == rr \in 0 .. own.hvr
+\* getVoteSet(round) # nil: tracked, or an entry a catch-up vote created
+HasSet(rr) == Tracked(rr) \/ rr \in rs.cat
+\* the rounds SetRound can reach within MaxOwn own round changes
+Near(rr) == rr \in 1 .. C.r + 2 * MaxOwn + 1
 
 (* ---- the message lattice ---------------------------------------------------- *)
 Heights == {0, C.h - 1, C.h, C.h + 1, MAXH}
-Rounds  == {NEG, -1, 0, 1, 2, FAR, MAXI}
+Rounds  == {NEG, -1, 0, 1, 2, 3, FAR, MAXI}
 Types   == {Prevote, Precommit, 0, 3, 255}
 BitArrs == {"nil", "ok", "short", "long", "incons", "neg"}   \* BitArray: nil / right size / smaller / larger / Bits > 64*len(Elems) / Bits < 0
 
@@ -124,9 +169,10 @@ VoteDom ==
    vaddr |-> {"who", "other", "empty", "garbage"},
    size |-> {-1, 0, NV - 1, NV, NV + 1, MAXI},
    bid  |-> {"nil", "block", "unknown", "huge"},
-   sig  |-> {"who", "other", "bad", "none"}]
+   sig  |-> {"who", "other", "bad", "none"},
+   sz   |-> Sizes]      \* a vote is made large through BlockID.PartsHeader.Hash: it then names an unknown block (VBid)
 VoteBase(typ) == [t |-> "vote", ch |-> "vote", nilc |-> FALSE, h |-> C.h, r |-> C.r, typ |-> typ, who |-> 3,
-                  vidx |-> "who", vaddr |-> "who", size |-> NV, bid |-> "block", sig |-> "who"]
+                  vidx |-> "who", vaddr |-> "who", size |-> NV, bid |-> "block", sig |-> "who", sz |-> "small"]
 \* a straggler precommit of the previous height (what cs.LastCommit collects in step NewHeight)
 StragglerBase == [VoteBase(Precommit) EXCEPT !.h = C.h - 1, !.r = 0]
 VoteKey == {"sig", "h", "typ"}
@@ -134,18 +180,20 @@ VoteKey == {"sig", "h", "typ"}
 PropDom ==
   [nilc |-> BOOLEAN, ptype |-> {"normal", "recover", "zero", "bad"}, h |-> Heights, r |-> Rounds,
    pol |-> {NEG, -1, 0, 1, FAR, MAXI}, total |-> {NEG, -1, 0, NP, MAXI}, hash |-> {"ok", "empty", "long"},
-   polbid |-> {"nil", "block", "huge"}, sig |-> {"proposer", "other", "bad", "none"}]
+   polbid |-> {"nil", "block", "huge"}, sig |-> {"proposer", "other", "bad", "none"},
+   sz |-> Sizes]        \* a proposal is made large through BlockPartsHeader.Hash (which defaultSetProposal does not look at)
 PropBase == [t |-> "proposal", ch |-> "data", nilc |-> FALSE, ptype |-> "normal", h |-> C.h, r |-> C.r, pol |-> -1,
-             total |-> NP, hash |-> "ok", polbid |-> "nil", sig |-> "proposer"]
+             total |-> NP, hash |-> "ok", polbid |-> "nil", sig |-> "proposer", sz |-> "small"]
 \* the message the recover path of defaultSetProposal looks for
 RecoverBase == [PropBase EXCEPT !.ptype = "recover", !.r = C.r + 1]
 PropKey == {"sig", "h", "r", "total"}
 
 PartDom ==
   [nilc |-> BOOLEAN, h |-> Heights, r |-> Rounds, idx |-> {NEG, -1, 0, 1, 2, NP, MAXI},
-   bytes |-> {"ok", "garbage", "empty"}, proof |-> {"ok", "garbage", "empty", "long"}]
+   bytes |-> {"ok", "garbage", "empty"}, proof |-> {"ok", "garbage", "empty", "long"},
+   sz |-> Sizes]        \* a part is made large through Part.Bytes: it cannot have a valid Merkle proof (honest parts have BlockPartSizeBytes)
 MissingIdx == IF C.exp /\ C.have # 0 .. NP - 1 THEN CHOOSE i \in 0 .. NP - 1 : i \notin C.have /\ \A j \in 0 .. NP - 1 : j \notin C.have => i <= j ELSE 0
-PartBase == [t |-> "part", ch |-> "data", nilc |-> FALSE, h |-> C.h, r |-> C.r, idx |-> MissingIdx, bytes |-> "ok", proof |-> "ok"]
+PartBase == [t |-> "part", ch |-> "data", nilc |-> FALSE, h |-> C.h, r |-> C.r, idx |-> MissingIdx, bytes |-> "ok", proof |-> "ok", sz |-> "small"]
 PartKey == {"idx", "h"}
 
 NrsDom == [h |-> Heights, r |-> Rounds, step |-> {0, 1, 3, 8, 9, 255}, secs |-> {-1, 0, MAXI}, lcr |-> {NEG, -1, 0, MAXI}]
@@ -160,21 +208,27 @@ HvBase == [t |-> "hasvote", ch |-> "state", h |-> C.h, r |-> C.r, typ |-> Prevot
 MjDom == [h |-> Heights, r |-> Rounds, typ |-> Types, bid |-> {"nil", "block", "unknown", "huge"}]
 MjBase == [t |-> "maj23", ch |-> "state", h |-> C.h, r |-> C.r, typ |-> Prevote, bid |-> "block"]
 
-VbDom == [h |-> Heights, r |-> Rounds, typ |-> Types, bid |-> {"nil", "block", "unknown", "huge"}, ba |-> BitArrs]
-VbBase == [t |-> "bits", ch |-> "bits", h |-> C.h, r |-> C.r, typ |-> Prevote, bid |-> "block", ba |-> "ok"]
+\* (VoteSetBits and ProposalPOL messages are made large through the elements of their BitArray)
+VbDom == [h |-> Heights, r |-> Rounds, typ |-> Types, bid |-> {"nil", "block", "unknown", "huge"}, ba |-> BitArrs, sz |-> Sizes]
+VbBase == [t |-> "bits", ch |-> "bits", h |-> C.h, r |-> C.r, typ |-> Prevote, bid |-> "block", ba |-> "ok", sz |-> "small"]
 
-PolDom == [h |-> Heights, polr |-> {NEG, -1, 0, 1, FAR, MAXI}, ba |-> BitArrs]
-PolBase == [t |-> "pol", ch |-> "data", h |-> C.h, polr |-> 0, ba |-> "ok"]
+PolDom == [h |-> Heights, polr |-> {NEG, -1, 0, 1, FAR, MAXI}, ba |-> BitArrs, sz |-> Sizes]
+PolBase == [t |-> "pol", ch |-> "data", h |-> C.h, polr |-> 0, ba |-> "ok", sz |-> "small"]
 
 HbDom == [nilc |-> BOOLEAN, h |-> Heights, r |-> {NEG, 0, MAXI}, idx |-> {NEG, 0, MAXI}]
 HbBase == [t |-> "heartbeat", ch |-> "state", nilc |-> FALSE, h |-> C.h, r |-> C.r, idx |-> 1]
 
 \* single and double deviations of a base message
 Dev1(base, dom) == {[base EXCEPT ![f] = v] : <<f, v>> \in UNION {{<<f, v>> : v \in dom[f]} : f \in DOMAIN dom}}
+\* (with Pairs = "key" the size is paired only with the signature class and the part index)
+SzKey == {"sig", "idx"}
 Dev2(base, dom, key) ==
   LET FV == UNION {{<<f, v>> : v \in dom[f] \ {base[f]}} : f \in DOMAIN dom}
   IN  {[base EXCEPT ![a[1]] = a[2], ![b[1]] = b[2]] :
-         <<a, b>> \in {p \in FV \X FV : p[1][1] # p[2][1] /\ (Pairs = "all" \/ p[1][1] \in key)}}
+         <<a, b>> \in {p \in FV \X FV : /\ p[1][1] # p[2][1]
+                                        /\ \/ Pairs = "all"
+                                           \/ p[1][1] \in key /\ p[2][1] # "sz" /\ p[1][1] # "sz"
+                                           \/ p[1][1] \in SzKey /\ p[2][1] = "sz"}}
 Dev(base, dom, key) == {base} \cup Dev1(base, dom) \cup Dev2(base, dom, key)
 
 \* A Byzantine proposer's block: the proposal (signed as sig says) followed by all parts (valid proofs) of a
@@ -207,16 +261,22 @@ WellFormedVote(m) == ~m.nilc /\ m.typ \in {Prevote, Precommit} /\ Authentic(m) /
 HeldValue(rr, ty, v) == IF \E e \in C.held : e[1] = rr /\ e[2] = ty /\ e[3] = v
                         THEN (CHOOSE e \in C.held : e[1] = rr /\ e[2] = ty /\ e[3] = v)[4] ELSE "none"
 PlusOne(hh) == IF hh = MAXH THEN 0 ELSE hh + 1
+\* the block a vote names: a large vote carries its bulk in BlockID.PartsHeader.Hash, so it names a block nobody knows
+VBid(m) == IF m.sz = "small" THEN m.bid ELSE "unknown"
+HasSz(m) == m.t \in {"vote", "proposal", "part", "bits", "pol"}
+Size(m) == IF HasSz(m) THEN Bytes(m.sz) ELSE Small
+\* decodeMsg: len(bz) > maxMsgSize is an error (the peer is stopped)
+Decodable(m) == Size(m) <= Lim
 
 MayAffectVote(m) ==
-  \/ \* a new vote of the current height for a round the node tracks (or may start tracking)
-     /\ WellFormedVote(m) /\ m.h = C.h /\ (Tracked(m.r) \/ rs.q < 2)
-     /\ HeldValue(m.r, m.typ, m.who) # m.bid
+  \/ \* a new vote of the current height for a round the node has a vote set for (or may create one for)
+     /\ WellFormedVote(m) /\ m.h = C.h /\ (HasSet(m.r) \/ rs.q < 2)
+     /\ HeldValue(m.r, m.typ, m.who) # VBid(m)
   \/ \* a late precommit of the previous height while waiting in NewHeight
      /\ WellFormedVote(m) /\ PlusOne(m.h) = C.h /\ C.step = StNewHeight /\ m.typ = Precommit
      /\ C.lc /\ m.r = 0 /\ m.who \notin C.lcHeld
   \/ \* HeightVoteSet allocates a catch-up round (at most two per peer) before it validates the vote
-     /\ ~m.nilc /\ m.h = C.h /\ m.typ \in {Prevote, Precommit} /\ ~Tracked(m.r) /\ rs.q < 2
+     /\ ~m.nilc /\ m.h = C.h /\ m.typ \in {Prevote, Precommit} /\ ~HasSet(m.r) /\ rs.q < 2
 
 PolOK(m) == m.pol = -1 \/ (0 <= m.pol /\ m.pol < m.r)
 MayAffectProposal(m) ==
@@ -227,10 +287,10 @@ MayAffectProposal(m) ==
         /\ m.ptype = "recover" /\ C.stalled /\ m.h = C.h /\ m.r > C.r /\ m.sig \in {"proposer", "other"}
 
 MayAffectPart(m) ==
-  ~m.nilc /\ m.h = C.h /\ C.exp /\ m.idx \in 0 .. NP - 1 /\ m.idx \notin C.have /\ m.bytes = "ok" /\ m.proof = "ok"
+  ~m.nilc /\ m.h = C.h /\ C.exp /\ m.idx \in 0 .. NP - 1 /\ m.idx \notin C.have /\ m.bytes = "ok" /\ m.proof = "ok" /\ m.sz = "small"
 
 \* a majority claim is remembered in the vote set of a tracked round of the current height
-MayAffectMaj23(m) == m.h = C.h /\ m.typ \in {Prevote, Precommit} /\ Tracked(m.r) /\ rs.claim = <<>>
+MayAffectMaj23(m) == m.h = C.h /\ m.typ \in {Prevote, Precommit} /\ HasSet(m.r) /\ rs.claim = <<>>
 
 OnOwnChannel(m) == \/ m.t \in {"nrs", "commitstep", "hasvote", "maj23", "heartbeat"} /\ m.ch = "state"
                    \/ m.t \in {"proposal", "part", "pol", "byzblock"} /\ m.ch = "data"
@@ -241,7 +301,7 @@ OnOwnChannel(m) == \/ m.t \in {"nrs", "commitstep", "hasvote", "maj23", "heartbe
 MayAffectByz(m) == ~C.prop /\ C.step < StCommit /\ m.sig = "proposer"
 
 MayAffect(m) ==
-  /\ OnOwnChannel(m)
+  /\ OnOwnChannel(m) /\ Decodable(m)
   /\ CASE m.t = "vote"     -> MayAffectVote(m)
        [] m.t = "byzblock" -> MayAffectByz(m)
        [] m.t = "proposal" -> MayAffectProposal(m)
@@ -267,7 +327,7 @@ VoteSetAdd(m, heldValue) ==
   ELSE IF m.size # NV THEN None                              \* ValidatorSize != valSet.Size()
   ELSE IF m.vidx \in {"size", "max"} THEN None               \* valSet.GetByIndex: index >= len -> nil
   ELSE IF m.vaddr # "who" \/ m.vidx # "who" THEN None        \* address does not match the index
-  ELSE IF heldValue = m.bid THEN None                        \* duplicate (or non-deterministic signature)
+  ELSE IF heldValue = VBid(m) THEN None                      \* duplicate (or non-deterministic signature)
   ELSE IF m.sig # "who" THEN None                            \* vote.Verify
   ELSE IF heldValue # "none" THEN "conflict"                 \* addVerifiedVote: conflicting, not tracked
   ELSE "vote"                                                \* addVerifiedVote
@@ -283,9 +343,9 @@ AddVote(m, fx) ==
               IN  IF a = "vote" THEN "lastcommit" ELSE a
   ELSE IF m.h # C.h THEN None                                \* ErrVoteHeightMismatch
   ELSE IF m.typ \notin {Prevote, Precommit} THEN None        \* HeightVoteSet.AddVote: !IsVoteTypeValid
-  ELSE IF ~Tracked(m.r) THEN
+  ELSE IF ~HasSet(m.r) THEN                                  \* getVoteSet(vote.Round) == nil
          IF rs.q >= 2 THEN None                              \* GotVoteFromUnwantedRoundError
-         ELSE IF VoteSetAdd(m, "none") = "vote" THEN "alloc+vote" ELSE "alloc"
+         ELSE IF VoteSetAdd(m, "none") = "vote" THEN "alloc+vote" ELSE "alloc"   \* hvs.addRound(vote.Round) BEFORE voteSet.AddVote
   ELSE VoteSetAdd(m, HeldValue(m.r, m.typ, m.who))
 
 \* consensus.defaultSetProposal
@@ -310,7 +370,7 @@ AddPart(m, fx) ==
   ELSE IF m.idx >= NP THEN None                              \* ErrPartSetUnexpectedIndex
   ELSE IF m.idx < 0 THEN (IF fx.idx THEN None ELSE "panic")  \* ps.parts[part.Index]
   ELSE IF m.idx \in C.have THEN None                         \* already there
-  ELSE IF m.bytes # "ok" \/ m.proof # "ok" THEN None         \* ErrPartSetInvalidProof
+  ELSE IF m.bytes # "ok" \/ m.proof # "ok" \/ m.sz # "small" THEN None   \* ErrPartSetInvalidProof
   ELSE "part"
 
 \* consensus.addProposalBlockPart
@@ -335,10 +395,20 @@ HandleMsg(m, fx) == CASE m.t = "proposal" -> SetProposal(m, fx)
                       [] m.t = "vote"     -> AddVote(m, fx)
                       [] OTHER            -> None
 
+\* baseWAL.Write -> WALEncoder.Encode(TimedWALMessage{time.Now(), msgInfo{msg, peerID}}): the record is the message plus
+\* WalWrap bytes; an Encode error is a panic in baseWAL.Write.  The encoder of the code has no size bound (the decoder
+\* refuses records above Lim: WalUnreadable - the business of the crash-recovery properties).
+WalRecord(m) == Size(m) + WalWrap
+WalWrite(m) == IF WalEncoderLimit /\ WalRecord(m) > Lim THEN "panic" ELSE "ok"
+WalUnreadable(m) == WalRecord(m) > Lim
+\* receiveRoutine, case mi := <-cs.peerMsgQueue:  cs.wal.Write(mi); cs.handleMsg(mi)
+Routine(m, fx) == IF WalWrite(m) = "panic" THEN "panic" ELSE HandleMsg(m, fx)
+
 \* ConsensusReactor.Receive: does the message reach peerMsgQueue?  "yes" / "no" / "prs" (yes unless the
 \* reactor panics on its own bookkeeping of the peer, which depends on what the peer announced before)
 Forwarded(m) ==
-  IF ~OnOwnChannel(m) \/ m.t \notin {"proposal", "part", "vote"} THEN "no"
+  IF ~Decodable(m) THEN "no"                                 \* decodeMsg: "Msg exceeds max size"
+  ELSE IF ~OnOwnChannel(m) \/ m.t \notin {"proposal", "part", "vote"} THEN "no"
   ELSE IF m.nilc THEN "no"                                   \* ps.SetHasProposal / msg.Part.Index / ps.SetHasVote dereference it
   ELSE IF m.t = "vote" /\ m.vidx = "negbig" THEN "prs"       \* BitArray.SetIndex of the peer's vote bit array
   ELSE IF m.t = "part" /\ m.idx = NEG THEN "prs"
@@ -347,7 +417,7 @@ Forwarded(m) ==
 
 \* HeightVoteSet.SetPeerMaj23 as the reactor calls it: effect on the node's vote sets
 Maj23Effect(m) ==
-  IF ~OnOwnChannel(m) \/ m.h # C.h \/ m.typ \notin {Prevote, Precommit} \/ ~Tracked(m.r) THEN None
+  IF ~OnOwnChannel(m) \/ m.h # C.h \/ m.typ \notin {Prevote, Precommit} \/ ~HasSet(m.r) THEN None
   ELSE IF rs.claim = <<>> THEN "claim"
   ELSE None      \* the same claim again, a claim for another vote set (the model keeps one) or a conflicting one (peer stopped)
 
@@ -356,59 +426,120 @@ Effect(m, fx) ==
   IF m.t = "byzblock" THEN (IF OnOwnChannel(m) THEN ByzBlock(m, fx) ELSE None)
   ELSE IF m.t = "maj23" THEN Maj23Effect(m)
   ELSE IF Forwarded(m) = "no" THEN None
-  ELSE HandleMsg(m, fx)
+  ELSE Routine(m, fx)
 
-\* what the state machine does if handed the message directly (the harness also does this)
-Direct(m, fx) == IF m.t \in {"proposal", "part", "vote"} THEN HandleMsg(m, fx) ELSE None
+\* what the state machine does if handed the message directly (the harness also does this: WAL write + handleMsg)
+Direct(m, fx) == IF m.t \in {"proposal", "part", "vote"} THEN Routine(m, fx) ELSE None
 
 (* ---- behaviours ---------------------------------------------------------------- *)
-Init == /\ cls \in Classes /\ rs = RS0 /\ running = TRUE /\ last = [op |-> "init"]
+Init == /\ cls \in Classes /\ rs = RS0 /\ own = OwnOf(cls) /\ running = TRUE /\ last = [op |-> "init"]
 
-\* Only messages whose path reads q / claim are explored again once those changed: handleMsg reads
-\* peerCatchupRounds only for votes of the current height with an untracked round, and peerMaj23s of a
-\* vote set only for claims about that vote set.
+\* Only messages whose path reads q / cat / claim are explored again once those changed: handleMsg reads
+\* peerCatchupRounds and the catch-up entries only for votes of the current height with an untracked round, and
+\* peerMaj23s of a vote set only for claims about that vote set.
 SensVote(m)  == m.t = "vote" /\ OnOwnChannel(m) /\ ~m.nilc /\ m.h = C.h /\ m.typ \in {Prevote, Precommit} /\ ~Tracked(m.r)
 SensClaim(m) == m.t = "maj23" /\ OnOwnChannel(m) /\ m.h = C.h /\ m.r = rs.claim[1] /\ m.typ = rs.claim[2]
 
+\* where a failing delivery fails (for records and for the what-if configuration)
+DeliverSite(m, e) == IF e # "panic" THEN "-"
+                     ELSE IF m.t # "byzblock" /\ m.t # "maj23" /\ WalWrite(m) = "panic" THEN "baseWAL.Write/WALEncoder.Encode"
+                     ELSE "handleMsg"
+
+\* The peer's input arrives while the node is in the state class (before its own steps).
 Deliver(m) ==
-  /\ running /\ rs.changed = "no"
+  /\ running /\ rs.changed = "no" /\ own = OwnOf(cls)
   /\ rs.q > 0 => SensVote(m)
   /\ rs.claim # <<>> => SensClaim(m)
   /\ LET e == Effect(m, Fixed) IN
        /\ running' = (e # "panic")
-       /\ rs' = CASE e \in {"alloc", "alloc+vote"} -> [rs EXCEPT !.q = @ + 1, !.changed = IF e = "alloc" THEN "no" ELSE e]
+       /\ rs' = CASE e \in {"alloc", "alloc+vote"} -> [rs EXCEPT !.q = @ + 1, !.changed = IF e = "alloc" THEN "no" ELSE e,
+                                                              !.cat = IF Near(m.r) THEN @ \cup {m.r} ELSE @]
                   [] e = "claim"                   -> [rs EXCEPT !.claim = <<m.r, m.typ, m.bid>>]
                   [] e \in {"none", "panic", "conflict"} -> rs
                   [] OTHER                         -> [rs EXCEPT !.changed = e]
        /\ last' = [op |-> "deliver", m |-> m, may |-> MayAffect(m), eff |-> e, fwd |-> Forwarded(m),
-                   direct |-> Direct(m, Fixed), asis |-> Effect(m, AsIs), asisdirect |-> Direct(m, AsIs)]
+                   direct |-> Direct(m, Fixed), asis |-> Effect(m, AsIs), asisdirect |-> Direct(m, AsIs),
+                   site |-> DeliverSite(m, e),
+                   walbig |-> (m.t \in {"proposal", "part", "vote"} /\ Forwarded(m) # "no" /\ WalUnreadable(m))]
+  /\ UNCHANGED <<cls, own>>
+
+(* ---- the node's own steps ------------------------------------------------------------ *)
+\* HeightVoteSet.SetRound(round) as enterNewRound calls it.  ex = the rounds above hvs.round that have an entry.
+SetRound(hvr, ex, round, skips) ==
+  IF hvr # 0 /\ round < hvr + 1 THEN "panic"                       \* PanicSanity("SetRound() must increment hvs.round")
+  ELSE IF ~skips /\ (ex \cap (hvr + 1 .. round)) # {} THEN "panic"   \* addRound(r): PanicSanity("addRound() for an existing round")
+  ELSE "ok"                                                         \* "continue // Already exists because peerCatchupRounds."
+
+\* enterNewRound(h, round) as far as it is partial: cs.Votes.SetRound(round + 1); the entries it runs over become tracked
+\* rounds (the peer's quota is not refunded).  A panic here is inside handleTimeout / handleMsg: receiveRoutine ends.
+EnterNewRound(op, round, ex, step2, cnt) ==
+  LET res == SetRound(own.hvr, ex, round + 1, SetRoundSkipsExisting) IN
+  /\ running' = (res = "ok")
+  /\ own' = IF res = "ok" THEN [own EXCEPT !.r = round, !.step = step2, !.hvr = round + 1, !.n = @ + cnt] ELSE own
+  /\ rs'  = IF res = "ok" THEN [rs EXCEPT !.cat = ex \ (0 .. round + 1)] ELSE rs
+  /\ last' = [op |-> op, res |-> res, site |-> IF res = "ok" THEN "-" ELSE "enterNewRound/HeightVoteSet.SetRound",
+              over |-> (ex \cap (own.hvr + 1 .. round + 1)) # {}]      \* SetRound runs over an existing entry (the guard decides)
   /\ UNCHANGED cls
 
-Next == \E m \in (IF rs.q > 0 THEN VoteMsgs ELSE IF rs.claim # <<>> THEN Maj23Msgs ELSE Msgs) : Deliver(m)
+\* (recover mode replaces validators and vote sets: what follows is the business of the recover properties)
+OwnEnabled == running /\ rs.changed # "recover"
+InRound == own.step \in StPropose .. StPrecommitWait
+
+\* the NewHeight timeout: handleTimeout -> enterNewRound(h, 0)
+Start   == OwnEnabled /\ own.step = StNewHeight /\ EnterNewRound("start", 0, rs.cat, StPropose, 0)
+\* timeouts and the others' nil votes: ... -> enterPrecommitWait -> timeout -> enterNewRound(h, r+1)
+\* (or +2/3 nil precommits: addVote -> enterNewRound(h, r+1))
+Advance == OwnEnabled /\ InRound /\ own.n < MaxOwn /\ ~own.committed /\ EnterNewRound("advance", own.r + 1, rs.cat, StPropose, 1)
+\* +2/3 of the validators prevote nil in round r+2 (they are ahead): the first of these votes creates the entry of round r+2
+\* as a catch-up round of the peer that relays it (if nobody created it before), addVote -> enterNewRound(h, r+2) -> enterPrecommit
+Skip    == OwnEnabled /\ InRound /\ own.n < MaxOwn /\ ~own.committed
+           /\ EnterNewRound("skip", own.r + 2, rs.cat \cup {own.r + 2}, StPrecommit, 1)
+\* +2/3 precommits for a block and its parts: enterCommit -> finalizeCommit -> updateToStatus: a new HeightVoteSet
+\* (no entries, no quotas, no claims), step NewHeight of the next height
+Commit  == /\ OwnEnabled /\ own.step # StNewHeight /\ ~own.committed
+           /\ own' = [h |-> own.h + 1, r |-> 0, step |-> StNewHeight, hvr |-> 0, n |-> 0, committed |-> TRUE]
+           /\ rs' = [rs EXCEPT !.q = 0, !.cat = {}, !.claim = <<>>]
+           /\ last' = [op |-> "commit", res |-> "ok", site |-> "-", over |-> FALSE]
+           /\ UNCHANGED <<cls, running>>
+OwnStep == Start \/ Advance \/ Skip \/ Commit
+
+Next == \/ \E m \in (IF rs.q > 0 THEN VoteMsgs ELSE IF rs.claim # <<>> THEN Maj23Msgs ELSE Msgs) : Deliver(m)
+        \/ OwnStep
 
 Spec == Init /\ [][Next]_vars
 
 (* ---- what TLC checks -------------------------------------------------------------- *)
-TypeOK == /\ cls \in Classes /\ running \in BOOLEAN /\ rs.q \in 0 .. 2
+TypeOK == /\ cls \in Classes /\ running \in BOOLEAN /\ rs.q \in 0 .. 2 /\ rs.cat \subseteq Rounds
+          /\ own.h \in {C.h, C.h + 1} /\ own.r \in 0 .. C.r + 2 * MaxOwn /\ own.step \in StNewHeight .. StCommit
+          /\ own.n \in 0 .. MaxOwn /\ own.committed \in BOOLEAN
 
-\* the consensus routine keeps running whatever the peer sends
+\* the consensus routine keeps running whatever the peer sends and whatever the node does afterwards
 AlwaysRunning == running
 
 \* a message that may not legitimately affect the node leaves its RoundState alone
 InvalidIsStutter == [][ (last'.op = "deliver" /\ ~last'.may) => rs' = rs ]_vars
 
-\* the catch-up allocation is bounded per peer
-BoundedCatchup == rs.q <= 2
+\* the catch-up allocation is bounded per peer, and the entries the peer created never outnumber its quota
+BoundedCatchup == rs.q <= 2 /\ Cardinality(rs.cat) <= rs.q
+
+\* the node tracks exactly the rounds 0 .. round+1 once it has entered a round; no catch-up entry lies inside that range
+TrackedRange == /\ own.step # StNewHeight => own.hvr = own.r + 1
+                /\ own.step = StNewHeight => own.hvr = 0
+                /\ rs.cat \cap (0 .. own.hvr) = {}
 
 \* nothing the state machine is handed directly may fail either, except for nil components,
 \* which the reactor never forwards (Forwarded = "no")
 DirectOnlyNil == [][ (last'.op = "deliver" /\ last'.direct = "panic" /\ last'.eff # "panic") => last'.m.nilc ]_vars
 
+\* what-if configuration (SetRoundSkipsExisting = FALSE, WalEncoderLimit = TRUE): every site at which the routine would end
+Hazard == running \/ PrintT(ToJson([hazard |-> last.site, cls |-> cls, act |-> last]))
+
 (* ---- export for the harness --------------------------------------------------------- *)
-Proj(c, r) == [cls |-> c, q |-> r.q, claim |-> r.claim, changed |-> r.changed]
+Proj(c, r, o) == [cls |-> c, q |-> r.q, claim |-> r.claim, changed |-> r.changed, cat |-> r.cat,
+                  own |-> [h |-> o.h, r |-> o.r, step |-> o.step, hvr |-> o.hvr, n |-> o.n, committed |-> o.committed]]
 \* cf: the class record, for the harness to check that the node it built is the one described here
 ClassFacts == [h |-> C.h, r |-> C.r, step |-> C.step, lc |-> C.lc, prop |-> C.prop, exp |-> C.exp,
                nhave |-> Cardinality(C.have), blk |-> C.blk, stalled |-> C.stalled]
-Edge == PrintT(ToJson([from |-> Proj(cls, rs), act |-> last', to |-> Proj(cls', rs'), run |-> running', cf |-> ClassFacts]))
-View == <<cls, rs, running>>
+Edge == PrintT(ToJson([from |-> Proj(cls, rs, own), act |-> last', to |-> Proj(cls', rs', own'), run |-> running', cf |-> ClassFacts]))
+View == <<cls, rs, own, running>>
 =============================================================================
